@@ -20,10 +20,12 @@
 use geodesy::prelude::*;
 use proptest::prelude::*;
 use serde::{Deserialize, Serialize};
+use geodesy::authoring::{BaseGrid, Grid};
 use std::collections::{BTreeMap, BTreeSet};
+use std::sync::Arc;
 use std::time::Duration;
 use vcore::geo::*;
-use vcore::gridctx::GridCtx;
+use vcore::gridctx::{gravsoft_text, GridCtx};
 use vcore::*;
 
 // ---- definition AST -----------------------------------------------------------------
@@ -194,7 +196,7 @@ struct Leaf {
     required: Option<&'static str>,
 }
 
-const LEAVES: [Leaf; 9] = [
+const LEAVES: [Leaf; 15] = [
     Leaf {
         name: "helmert",
         num: &["x", "y", "z", "s", "x", "y", "z", "s", "x", "y", "dx", "t_epoch"],
@@ -231,6 +233,14 @@ const LEAVES: [Leaf; 9] = [
         gamut: &["inv", "geocentric", "reduced", "parametric", "conformal", "authalic", "rectifying", "ellps"],
         required: None,
     },
+    // only in the sections on typed parameters ('typed-bindings', 'typed-mixed')
+    Leaf { name: "axisswap", num: &[], ellps: false, flags: &[], gamut: &["inv", "order"], required: None },
+    Leaf { name: "unitconvert", num: &[], ellps: false, flags: &[], gamut: &["inv", "xy_in", "xy_out", "z_in", "z_out"], required: None },
+    // (stack has no `inv` in its gamut: the pipeline it is a step of decides what it does)
+    Leaf { name: "stack", num: &[], ellps: false, flags: &[], gamut: &["push", "pop", "roll", "unroll", "flip", "swap", "drop"], required: None },
+    Leaf { name: "gridshift", num: &[], ellps: false, flags: &[], gamut: &["inv", "grids", "padding"], required: Some("grids") },
+    Leaf { name: "deformation", num: &[], ellps: true, flags: &[], gamut: &["inv", "raw", "grids", "padding", "dt", "t_epoch", "ellps"], required: Some("grids") },
+    Leaf { name: "merc", num: &[], ellps: true, flags: &[], gamut: &["inv", "ellps", "lat_0", "lon_0", "x_0", "y_0", "k_0", "lat_ts"], required: None },
 ];
 
 fn leaf_spec(name: &str) -> Option<&'static Leaf> {
@@ -539,6 +549,9 @@ impl Expander {
     /// `k=$n` where n is another key of the same step: which scope is meant is not specified
     fn sibling_refs(&mut self, st: &Step) {
         for a in &st.args {
+            if let Some(why) = outside_value_grammar(&a.val) {
+                self.out.unspecified.push(format!("'{}': {why}", st.text()));
+            }
             if let Val::Ref(n) | Val::RefDef(n, _) = &a.val {
                 if *n != a.key && st.args.iter().any(|b| b.key == *n) {
                     self.out.unspecified.push(format!("'{}': ${n} names a sibling parameter", st.text()));
@@ -787,6 +800,12 @@ impl Expander {
             }
         }
         self.cur_flag = false;
+        if st.op == "stack" && (inv || fr.flip) {
+            // a stack step has no inverse of its own (no `inv` in its gamut): what it does is decided by
+            // the direction of the pipeline it is a step of, so "reversed, each step inverted" does
+            // not describe a body with stack steps run backwards (C03, C12)
+            self.out.unspecified.push("a stack step under an inverted invocation".into());
+        }
         // `inv` is a flag of the operator like any other: when it is bound (`inv=$back`, `inv=(true)`)
         // and comes out true, the step is inverted
         let mut inv = inv;
@@ -804,6 +823,33 @@ impl Expander {
             self.out.one_way.2 += 1;
         }
         self.out.leaves.push(LeafLit { op: st.op.clone(), params, inv, omit_fwd: fr.omit_fwd, omit_inv: fr.omit_inv });
+    }
+}
+
+/// Values and defaults the binding syntax has no way to express (established on the unchanged
+/// library, which takes every other text literally): a default inside `$n(...)` cannot contain a
+/// parenthesis (the text is split at every '(' and ')'), a default inside `(...)` cannot end in ')'
+/// (all trailing ')' are stripped), no value or default can start with the sigils '$' / '(' (that
+/// is a binding form), be empty, or contain '=' or white space other than after a comma (the
+/// tokeniser splits there). Such inputs are not judged.
+fn outside_value_grammar(v: &Val) -> Option<String> {
+    let common = |t: &str| -> Option<String> {
+        if t.is_empty() {
+            return Some("empty value".into());
+        }
+        if t.starts_with(['$', '(']) {
+            return Some(format!("the value '{t}' starts with a binding sigil"));
+        }
+        if t.contains(['=', '|', '<', '>', '#']) || t.replace(", ", ",").contains(char::is_whitespace) || t.ends_with([',', ':']) || t.starts_with([',', ':']) {
+            return Some(format!("the value '{t}' does not survive tokenisation"));
+        }
+        None
+    };
+    match v {
+        Val::Flag | Val::Ref(_) => None,
+        Val::Lit(t) => common(t),
+        Val::RefDef(_, d) => common(d).or_else(|| d.contains(['(', ')']).then(|| format!("a parenthesis in the default of $n({d})"))),
+        Val::Def(d) => common(d).or_else(|| d.ends_with(')').then(|| format!("the default of ({d}) ends in a parenthesis"))),
     }
 }
 
@@ -864,6 +910,26 @@ fn selftest() {
         assert_eq!(x.unsafe_feats.is_empty(), outer < inner);
         assert_eq!(x.max_level, 6);
     }
+    // list valued defaults: `key=$name(d1,d2,d3)` takes the caller's list, else the default list; also
+    // on the argument of a nested invocation (`k=$k2(list)`)
+    let lib = vec![
+        Macro { name: "s:all".into(), body: vec![st("helmert", vec![arg("translation", Val::RefDef("t".into(), "1,2,3".into()))], InvPos::No)] },
+        Macro { name: "s:outer".into(), body: vec![st("s:all", vec![arg("t", Val::RefDef("u".into(), "7,8,9".into()))], InvPos::No)] },
+    ];
+    assert_eq!(expand(&lib, &[st("s:all", vec![], InvPos::No)]).literal(), "helmert ellps=GRS80 translation=1,2,3");
+    assert_eq!(expand(&lib, &[st("s:all", vec![arg("t", lit("4, 5, 6"))], InvPos::No)]).literal(), "helmert ellps=GRS80 t=4, 5, 6 translation=4, 5, 6");
+    assert_eq!(expand(&lib, &[st("s:outer", vec![], InvPos::No)]).literal(), "helmert ellps=GRS80 t=7,8,9 translation=7,8,9");
+    assert_eq!(expand(&lib, &[st("s:outer", vec![arg("u", lit("4,5,6"))], InvPos::No)]).literal(), "helmert ellps=GRS80 t=4,5,6 translation=4,5,6 u=4,5,6");
+    assert!(expand(&lib, &[st("s:all", vec![arg("t", Val::RefDef("q".into(), "g(1).datum".into()))], InvPos::No)]).unspecified.len() == 1);
+    assert!(outside_value_grammar(&Val::Def("g(1).datum,@null".into())).is_none() && outside_value_grammar(&Val::Lit("10, 20, 30".into())).is_none());
+    assert!(outside_value_grammar(&Val::Lit("a=b".into())).is_some() && outside_value_grammar(&Val::Lit("1 2".into())).is_some() && outside_value_grammar(&Val::Def("(1)".into())).is_some());
+    // the sites of the typed sections: keys are keys of their operator, fixed arguments do not bind the key,
+    // the nesting index covers depth 0..3
+    for s in SITES {
+        let spec = leaf_spec(s.op).expect("site operator has a leaf spec");
+        assert!(spec.gamut.contains(&s.key) && s.values.len() >= 4 && !lit_step(&format!("{} {}", s.op, s.fixed)).args.iter().any(|a| a.key == s.key), "{}.{}", s.op, s.key);
+    }
+    assert!(nesting(0).is_empty() && nesting(5) == vec![4] && nesting(6) == vec![0, 0] && nesting(NESTINGS - 1) == vec![4, 4, 4]);
     // the wide name pools: disjoint, no operator key, no reserved key, no trailing subscript digit
     let mut all = BTreeSet::new();
     for ty in 0..3u8 {
@@ -938,8 +1004,24 @@ fn lib_text(lib: &[Macro]) -> String {
     lib.iter().map(|m| format!("    {} = {}\n", m.name, steps_text(&m.body))).collect()
 }
 
-fn new_ctx<C: Context>(lib: &[Macro]) -> C {
+/// What a context needs before use: the user context gets the in-memory grids of the sections on
+/// typed parameters (no other section has an operator that asks for a grid)
+trait Prep: Context {
+    fn prep(&mut self) {}
+}
+impl Prep for Minimal {}
+impl Prep for Plain {}
+impl Prep for GridCtx {
+    fn prep(&mut self) {
+        for (name, grid) in typed_grids() {
+            self.add_grid(name, grid.clone());
+        }
+    }
+}
+
+fn new_ctx<C: Prep>(lib: &[Macro]) -> C {
     let mut ctx = C::new();
+    ctx.prep();
     for m in lib {
         ctx.register_resource(&m.name, &steps_text(&m.body));
     }
@@ -971,7 +1053,12 @@ fn same_behaviour<C: Context, D: Context>(
     Ok(())
 }
 
-fn check_with<C: Context>(case: &Case, rec: &mut Rec) -> CaseResult {
+fn check_with<C: Prep>(case: &Case, rec: &mut Rec) -> CaseResult {
+    judge::<C>(case, rec).map(|_| ())
+}
+
+/// The oracle proper; Ok(how the case was decided)
+fn judge<C: Prep>(case: &Case, rec: &mut Rec) -> Result<&'static str, Failure> {
     let invocation = steps_text(&case.top);
     let x = expand(&case.lib, &case.top);
     if case.excluded_known > 0 {
@@ -988,7 +1075,7 @@ fn check_with<C: Context>(case: &Case, rec: &mut Rec) -> CaseResult {
     }
     if x.overflow || !x.missing.is_empty() {
         rec.class("outside-generator-contract");
-        return Ok(());
+        return Ok("outside-generator-contract");
     }
     rec.class(&format!("depth={}", x.max_depth));
     rec.class(&format!("ctx={}", case.ctx));
@@ -1009,12 +1096,12 @@ fn check_with<C: Context>(case: &Case, rec: &mut Rec) -> CaseResult {
         if x.unsafe_feats.is_empty() {
             rec.nontrivial(&(lib_text(&case.lib), &invocation));
         }
-        return Ok(());
+        return Ok("error-expected");
     }
     if !x.unspecified.is_empty() {
         rec.count("excluded_unspecified", 1);
         rec.class("outcome=unspecified");
-        return Ok(());
+        return Ok("unspecified");
     }
     if x.max_level > 50 {
         // a legitimately deep chain may end in Error::Recursion: only Ok/Err/no panic (above)
@@ -1027,23 +1114,24 @@ fn check_with<C: Context>(case: &Case, rec: &mut Rec) -> CaseResult {
         if let Outcome::Panic(p) = &got {
             vfail!(format!("panic-instantiate@{}", p.sig()), "instantiating '{invocation}' panics: {} at {}:{}", p.msg, p.file, p.line);
         }
-        return Ok(());
+        return Ok("near-breaker");
     }
 
     // 2. the literal expansion, in a context that has no macros of ours
     let literal = x.literal();
     let mut lctx = C::new();
+    lctx.prep();
     let want = instantiate(&mut lctx, &literal);
     let (h, hl) = match (&got, &want) {
         (Outcome::Ok(h), Outcome::Ok(hl)) => (*h, *hl),
         (Outcome::Err(_), Outcome::Err(e)) => {
             rec.class("outcome=both-error");
             rec.class(&format!("both-error:{}", e.split(['(', ' ']).next().unwrap_or("?")));
-            return Ok(());
+            return Ok("both-error");
         }
         (Outcome::Panic(p), Outcome::Panic(q)) if p.sig() == q.sig() => {
             rec.class("outcome=both-panic");
-            return Ok(());
+            return Ok("both-panic");
         }
         _ => {
             let show = |o: &Outcome| match o {
@@ -1103,7 +1191,7 @@ fn check_with<C: Context>(case: &Case, rec: &mut Rec) -> CaseResult {
     if x.nontrivial || x.one_way.1 > 0 {
         rec.nontrivial(&(lib_text(&case.lib), &invocation));
     }
-    Ok(())
+    Ok("both-ok")
 }
 
 /// Run `f` on a thread of its own (16 MB stack, like the shard workers): whatever the library
@@ -1833,7 +1921,7 @@ fn graph_shape(lib: &[Macro], top: &[Step]) -> (Option<usize>, bool) {
     (cycle, missing)
 }
 
-fn check_graph_with<C: Context>(g: &GCase, rec: &mut Rec) -> CaseResult {
+fn check_graph_with<C: Prep>(g: &GCase, rec: &mut Rec) -> CaseResult {
     let (cycle, missing) = graph_shape(&g.lib, &g.top);
     if cycle.is_none() && !missing {
         // finite expansion: the macro must mean it
@@ -2467,6 +2555,383 @@ fn one_way_random() -> impl Strategy<Value = Case> {
     })
 }
 
+// ---- parameter types x binding forms ---------------------------------------------------------
+
+/// One operator parameter of a given type, with what the operator needs around it to show the
+/// value in its output, and a pool of legal (and a few illegal) values of that type.
+#[derive(Clone, Copy)]
+struct Site {
+    op: &'static str,
+    key: &'static str,
+    /// parameter type (OpParameter variant / what the value looks like), evidence label
+    ty: &'static str,
+    /// literal arguments of the same step
+    fixed: &'static str,
+    /// literal steps before / after the step in the same macro body (stack programs)
+    pre: &'static [&'static str],
+    post: &'static [&'static str],
+    values: &'static [&'static str],
+    /// needs the grids of the user context
+    grid: bool,
+    /// stack steps: no inverted invocation anywhere (see Expander::leaf)
+    no_inv: bool,
+}
+
+const S0: Site = Site { op: "", key: "", ty: "", fixed: "", pre: &[], post: &[], values: &[], grid: false, no_inv: false };
+const ELLIPSOIDS: &[&str] = &["intl", "6378137,298.257", "bessel", "6377563.396, 299.3249646", "WGS84", "6378388,297", "no_such_ellipsoid"];
+const TRIPLES: &[&str] = &["1,2,3", "3,2,1", "2,3,1", "1, 3, 2", "1,1,2", "2,1,3"];
+const FLAGS: &[&str] = &["true", "TRUE", "false", "True"];
+const HELMERT_XYZ: &str = "helmert x=5 y=7 z=9";
+
+const SITES: &[Site] = &[
+    // Series
+    Site { op: "helmert", key: "translation", ty: "series", values: &["1,2,3", "4,5,6", "-7,8.5,0.25", "0:30,1:0:36,2", "10, 20, 30", "1e3,-2e-1,3", "7,8"], ..S0 },
+    Site { op: "helmert", key: "rotation", ty: "series", fixed: "convention=position_vector", values: &["1,2,3", "0:0:1,0:0:2,3", "-0.5,0.25,2", "3, 2, 1", "100,200,300"], ..S0 },
+    Site { op: "helmert", key: "velocity", ty: "series", fixed: "t_epoch=2000", values: &["0.1,0.2,0.3", "1,-1,0.5", "0:30,0,0", "0.01, 0.02, 0.03", "3,2,1"], ..S0 },
+    Site { op: "helmert", key: "angular_velocity", ty: "series", fixed: "convention=coordinate_frame t_epoch=2010 rotation=1,2,3", values: &["0.1,0.2,0.3", "1,-1,0.5", "0:0:30,0,0", "0.01, 0.02, 0.03"], ..S0 },
+    Site { op: "axisswap", key: "order", ty: "series", values: &["2,1", "2,1,3,4", "3,-2,1", "-1,2", "4, 3, 2, 1", "1,1", "2,-1,3"], ..S0 },
+    Site { op: "stack", key: "push", ty: "series", post: &[HELMERT_XYZ, "stack pop=3,2,1"], values: TRIPLES, no_inv: true, ..S0 },
+    Site { op: "stack", key: "pop", ty: "series", pre: &["stack push=1,2,3", HELMERT_XYZ], values: TRIPLES, no_inv: true, ..S0 },
+    Site { op: "stack", key: "roll", ty: "series", pre: &["stack push=1,2,3", HELMERT_XYZ], post: &["stack pop=1,2,3"], values: &["3,2", "3,1", "2,1", "3,-1", "3, -2"], no_inv: true, ..S0 },
+    Site { op: "stack", key: "unroll", ty: "series", pre: &["stack push=1,2,3", HELMERT_XYZ], post: &["stack pop=1,2,3"], values: &["3,2", "3,1", "2,1", "3,-1", "3, -2"], no_inv: true, ..S0 },
+    Site { op: "stack", key: "flip", ty: "series", pre: &["stack push=1,2", HELMERT_XYZ], post: &["stack pop=1,2"], values: &["3", "3,4", "4,3", "4", "2, 3"], no_inv: true, ..S0 },
+    // Texts (lists of grid names, with optional and null entries, and names containing the
+    // characters of the binding syntax)
+    Site {
+        op: "gridshift",
+        key: "grids",
+        ty: "texts",
+        values: &["w.datum", "n.datum,w.datum", "w.datum,n.datum", "@nope.datum,n.datum,@null", "n.datum, @null", "g(1).datum,w.datum", "g$1.datum", "g:1.datum, w.datum", "@g(2.datum,n.datum", "nope.datum"],
+        grid: true,
+        ..S0
+    },
+    Site {
+        op: "deformation",
+        key: "grids",
+        ty: "texts",
+        fixed: "dt=10",
+        values: &["w.deformation", "@nope.deformation,w.deformation", "n.deformation,w.deformation", "w.deformation, n.deformation", "n.deformation,@null", "d$1).deformation,n.deformation"],
+        grid: true,
+        ..S0
+    },
+    // Text: plain, and the a,rf form of an ellipsoid (a text that contains a comma)
+    Site { op: "cart", key: "ellps", ty: "text-ellps", values: ELLIPSOIDS, ..S0 },
+    Site { op: "tmerc", key: "ellps", ty: "text-ellps", fixed: "lon_0=9 lat_0=12:30", values: ELLIPSOIDS, ..S0 },
+    Site { op: "utm", key: "ellps", ty: "text-ellps", fixed: "zone=32", values: ELLIPSOIDS, ..S0 },
+    Site { op: "deformation", key: "ellps", ty: "text-ellps", fixed: "dt=10 grids=w.deformation", values: ELLIPSOIDS, grid: true, ..S0 },
+    Site { op: "helmert", key: "convention", ty: "text", fixed: "rotation=100,200,300", values: &["position_vector", "coordinate_frame", "bursa_wolf", "position_vector"], ..S0 },
+    Site { op: "adapt", key: "from", ty: "text", fixed: "to=enuf", values: &["neuf_deg", "enuf_gon", "wndf_gon", "sedf_rad", "neuf", "nsuf"], ..S0 },
+    Site { op: "adapt", key: "to", ty: "text", fixed: "from=neuf_deg", values: &["enuf_gon", "wndf_gon", "sedf_rad", "neuf", "enuf_deg"], ..S0 },
+    Site { op: "unitconvert", key: "xy_in", ty: "text", fixed: "xy_out=m", values: &["km", "ft", "us-ft", "mi", "furlong", "cm"], ..S0 },
+    Site { op: "unitconvert", key: "z_out", ty: "text", fixed: "xy_in=km", values: &["km", "ft", "in", "cm", "us-yd"], ..S0 },
+    // Natural
+    Site { op: "utm", key: "zone", ty: "natural", values: &["32", "1", "60", "33", "07", "-1", "3.5"], ..S0 },
+    // Real, sexagesimal and with hemisphere postfix
+    Site { op: "tmerc", key: "lat_0", ty: "real-sexagesimal", fixed: "lon_0=9", values: &["55:30N", "12:30:36", "9:0:0S", "-0:30", "45.5", "33:15:00.5n", "1:2:3:4"], ..S0 },
+    Site { op: "tmerc", key: "lon_0", ty: "real-sexagesimal", values: &["12:30:36E", "9:0:0W", "-0:30", "15", "8:45e"], ..S0 },
+    Site { op: "merc", key: "lat_ts", ty: "real-sexagesimal", values: &["56:00N", "30:30S", "12", "0:45:30"], ..S0 },
+    Site { op: "helmert", key: "x", ty: "real-sexagesimal", values: &["1:30", "2", "-0:0:36", "3e2", "4.25"], ..S0 },
+    Site { op: "gridshift", key: "padding", ty: "real", fixed: "grids=n.datum,w.datum", values: &["0.5", "0", "1:30", "2"], grid: true, ..S0 },
+    // Flags
+    Site { op: "utm", key: "south", ty: "flag", fixed: "zone=32", values: FLAGS, ..S0 },
+    Site { op: "helmert", key: "exact", ty: "flag", fixed: "rotation=100,200,300 convention=position_vector", values: FLAGS, ..S0 },
+    Site { op: "deformation", key: "raw", ty: "flag", fixed: "dt=10 grids=w.deformation", values: FLAGS, grid: true, ..S0 },
+];
+
+/// In-memory grids of the user context: two overlapping datum grids (so the order of a list
+/// matters), the same for deformation, and grids under names containing '(', ')', '$', ':'
+fn typed_grids() -> &'static [(String, Arc<dyn Grid>)] {
+    static GRIDS: std::sync::OnceLock<Vec<(String, Arc<dyn Grid>)>> = std::sync::OnceLock::new();
+    GRIDS.get_or_init(|| {
+        let mk = |bands: usize, rows: usize, cols: usize, base: f64| -> Vec<Vec<Vec<f64>>> {
+            (0..bands).map(|b| (0..rows).map(|r| (0..cols).map(|c| base * (b as f64 + 1.0) + r as f64 * 0.25 - c as f64 * 0.125).collect()).collect()).collect()
+        };
+        let world = |bands: usize, base: f64| gravsoft_text(-90.0, 90.0, -180.0, 180.0, 45.0, 45.0, &mk(bands, 5, 9, base));
+        let north = |bands: usize, base: f64| gravsoft_text(30.0, 80.0, -20.0, 40.0, 10.0, 10.0, &mk(bands, 6, 7, base));
+        let mut out: Vec<(String, Arc<dyn Grid>)> = vec![];
+        for (name, text) in [
+            ("w.datum", world(2, 3.0)),
+            ("n.datum", north(2, 7.0)),
+            ("g(1).datum", north(2, 11.0)),
+            ("g$1.datum", north(2, 13.0)),
+            ("g:1.datum", north(2, 17.0)),
+            ("g(2.datum", north(2, 19.0)),
+            ("w.deformation", world(3, 2.0)),
+            ("n.deformation", north(3, 5.0)),
+            ("d$1).deformation", north(3, 9.0)),
+        ] {
+            let grid = BaseGrid::gravsoft(text.as_bytes()).expect("harness: the in-memory gravsoft grids are well-formed");
+            out.push((name.to_string(), Arc::new(grid)));
+        }
+        out
+    })
+}
+
+/// One typed parameter travelling down a chain of macros t:m0 -> ... -> t:m<depth>
+#[derive(Clone, Debug)]
+struct Strand {
+    site: usize,
+    /// rotation of the site's value pool: which value plays which role
+    rot: usize,
+    /// binding of the operator key in the innermost body: 0 absent (the caller's value is seen under
+    /// the key itself), 1 literal, 2 $n, 3 $n(d), 4 (d)
+    leaf: u8,
+    /// argument of the invocation of t:m<i+1> in the body of t:m<i>: 0 none, 1 literal, 2 $n, 3 $n(d), 4 (d)
+    fwd: Vec<u8>,
+    /// argument of the outermost invocation: 0 none, 1 literal, 2 (d), 3 $n(d) (n given by nobody)
+    caller: u8,
+    /// parameter names per level: 0 the operator key itself at every level, 1 ascending, 2 descending
+    scheme: u8,
+}
+
+const FORM_NAMES: [&str; 5] = ["absent", "literal", "$n", "$n(d)", "(d)"];
+const CALLER_NAMES: [&str; 4] = ["absent", "literal", "(d)", "$n(d)"];
+
+fn lit_step(text: &str) -> Step {
+    let mut it = text.split_whitespace();
+    let op = it.next().unwrap_or("noop").to_string();
+    let args = it
+        .map(|e| match e.split_once('=') {
+            Some((k, v)) => Arg { key: k.into(), val: Val::Lit(v.into()) },
+            None => Arg { key: e.into(), val: Val::Flag },
+        })
+        .collect();
+    Step { omit: Omit::NONE, op, args, inv: InvPos::No }
+}
+
+fn bound(key: &str, form: u8, name: &str, value: &str) -> Option<Arg> {
+    let val = match form {
+        0 => return None,
+        1 => Val::Lit(value.into()),
+        2 => Val::Ref(name.into()),
+        3 => Val::RefDef(name.into(), value.into()),
+        _ => Val::Def(value.into()),
+    };
+    Some(Arg { key: key.into(), val })
+}
+
+#[derive(Clone, Debug, Serialize, Deserialize)]
+struct TCase {
+    case: Case,
+    /// what the case crosses (evidence)
+    labels: Vec<String>,
+    /// some operator key is bound by a form other than a literal
+    bound: bool,
+}
+
+/// `shape`: bit 0 the innermost body is a pipeline even when it has one step, bit 1 the other
+/// bodies are pipelines, bits 2.. the invocation text (alone, or a step of a pipeline);
+/// `invs`: bit i = the invocation of t:m<i> is inverted (ignored when a strand has stack steps)
+fn typed_build(strands: &[Strand], depth: usize, shape: u8, invs: u8, ctx: u8, twin: u8) -> TCase {
+    let none = Omit::NONE;
+    let mut labels: Vec<String> = vec![format!("typed:depth={depth}"), format!("typed:strands={}", strands.len())];
+    let no_inv = strands.iter().any(|s| SITES[s.site].no_inv);
+    let grid = strands.iter().any(|s| SITES[s.site].grid);
+    let pos = |k: usize| [InvPos::Suffix, InvPos::Infix, InvPos::Prefix][k % 3];
+    let inv_at = |level: usize| if !no_inv && invs & (1 << level) != 0 { pos(level + shape as usize) } else { InvPos::No };
+    let mut calls: Vec<Vec<Arg>> = vec![vec![]; depth + 1]; // calls[i]: arguments of the invocation of t:m<i>
+    let mut body: Vec<Step> = vec![];
+    let mut any_bound = false;
+    for (si, s) in strands.iter().enumerate() {
+        let site = &SITES[s.site];
+        let value = |j: usize| site.values[(s.rot + j) % site.values.len()];
+        let prefix = ["v", "w", "u", "r"][si % 4];
+        // the name under which the value is known inside t:m<i>
+        let name = |i: usize| -> String {
+            if s.scheme == 0 || (i == depth && matches!(s.leaf, 0 | 4)) {
+                site.key.to_string()
+            } else {
+                let k = if s.scheme == 1 { i } else { 3 - i.min(3) };
+                format!("{prefix}{}", ["a", "b", "c", "d"][k])
+            }
+        };
+        let mut roles: Vec<(&str, &str)> = vec![];
+        match s.caller {
+            0 => {}
+            1 => calls[0].push(Arg { key: name(0), val: Val::Lit(value(1).into()) }),
+            2 => calls[0].push(Arg { key: name(0), val: Val::Def(value(1).into()) }),
+            _ => calls[0].push(Arg { key: name(0), val: Val::RefDef(format!("zz{prefix}"), value(1).into()) }),
+        }
+        if s.caller > 0 {
+            roles.push((["", "caller-literal", "caller-(d)", "caller-$n(d)"][s.caller as usize], value(1)));
+        }
+        for i in 0..depth {
+            if let Some(a) = bound(&name(i + 1), s.fwd[i], &name(i), value(2 + i)) {
+                if !matches!(a.val, Val::Ref(_)) {
+                    roles.push((["", "forwarded-literal", "", "forwarded-$n(d)", "forwarded-(d)"][s.fwd[i] as usize], value(2 + i)));
+                }
+                calls[i + 1].push(a);
+            }
+            labels.push(format!("typed:{}:forwarding={}", site.ty, FORM_NAMES[s.fwd[i] as usize]));
+        }
+        let mut leaf = lit_step(&format!("{} {}", site.op, site.fixed));
+        if let Some(a) = bound(site.key, s.leaf, &name(depth), value(0)) {
+            if s.leaf != 2 {
+                roles.push((["", "leaf-literal", "", "leaf-$n(d)", "leaf-(d)"][s.leaf as usize], value(0)));
+            }
+            // before or after the literal arguments of the step
+            if (s.rot + depth) % 2 == 0 {
+                leaf.args.insert(0, a);
+            } else {
+                leaf.args.push(a);
+            }
+        }
+        any_bound |= s.leaf != 1;
+        body.extend(site.pre.iter().map(|t| lit_step(t)));
+        body.push(leaf);
+        body.extend(site.post.iter().map(|t| lit_step(t)));
+        labels.push(format!("site:{}.{}", site.op, site.key));
+        labels.push(format!("typed:{}:leaf={}", site.ty, FORM_NAMES[s.leaf as usize]));
+        labels.push(format!("typed:{}:caller={}", site.ty, CALLER_NAMES[s.caller as usize]));
+        labels.push(format!("typed:names={}", ["operator-key", "ascending", "descending"][s.scheme as usize % 3]));
+        for (role, v) in roles {
+            for (what, yes) in [
+                ("comma", v.contains(',')),
+                ("space-after-comma", v.contains(", ")),
+                ("colon", v.contains(':')),
+                ("parenthesis", v.contains(['(', ')'])),
+                ("dollar", v.contains('$')),
+                ("at", v.contains('@')),
+            ] {
+                if yes {
+                    labels.push(format!("value:{role}:{what}"));
+                }
+            }
+        }
+    }
+    if body.len() == 1 && shape & 1 != 0 {
+        body.insert(0, lit_step("addone"));
+    }
+    let mut lib: Vec<Macro> = vec![];
+    for i in 0..depth {
+        let mut args = calls[i + 1].clone();
+        tidy_args(&mut args);
+        let call = Step { omit: none, op: format!("t:m{}", i + 1), args, inv: inv_at(i + 1) };
+        let steps = if shape & 2 != 0 {
+            if i % 2 == 0 {
+                vec![call, lit_step("noop")]
+            } else {
+                vec![lit_step("addone"), call]
+            }
+        } else {
+            vec![call]
+        };
+        lib.push(Macro { name: format!("t:m{i}"), body: steps });
+    }
+    lib.push(Macro { name: format!("t:m{depth}"), body });
+    let mut args = calls[0].clone();
+    tidy_args(&mut args);
+    let main = Step { omit: none, op: "t:m0".into(), args, inv: inv_at(0) };
+    let top = match (shape >> 2) % 4 {
+        0 | 1 => vec![main],
+        2 => vec![lit_step("addone"), main],
+        _ => vec![lit_step("noop"), main, lit_step("addone inv")],
+    };
+    let twin = if no_inv || top.len() != 1 || top[0].inv != InvPos::No { InvPos::No } else { [InvPos::No, InvPos::Suffix, InvPos::Infix, InvPos::Prefix][twin as usize % 4] };
+    let ctx = if grid { 2 } else { ctx % 3 };
+    TCase { case: Case { ctx, lib, top, twin, excluded_known: 0 }, labels, bound: any_bound }
+}
+
+/// nesting: index in 0..156 -> the forms of the invocation arguments on the way down, depth 0..3
+const NESTINGS: usize = 1 + 5 + 25 + 125;
+fn nesting(mut c: usize) -> Vec<u8> {
+    let mut depth = 0;
+    let mut block = 1;
+    while c >= block {
+        c -= block;
+        block *= 5;
+        depth += 1;
+    }
+    (0..depth).map(|k| ((c / 5usize.pow(k as u32)) % 5) as u8).collect()
+}
+
+/// quick: site x leaf form x nesting (depth 0..3, every combination of forwarding forms) x form of
+/// the outermost argument; the rotation of the value pool (which value plays which role), the
+/// naming scheme, the body shapes, the context, the inverted levels and the twin are a fixed
+/// scramble of the index. thorough: x every rotation of the site's value pool x the three naming
+/// schemes.
+const TYPED_BASE: usize = 4 * 5 * NESTINGS;
+
+/// (site, rotation, naming scheme) - None: taken from the scramble
+fn typed_units(full: bool) -> &'static [(usize, Option<(usize, u8)>)] {
+    static UNITS: std::sync::OnceLock<[Vec<(usize, Option<(usize, u8)>)>; 2]> = std::sync::OnceLock::new();
+    let units = UNITS.get_or_init(|| {
+        let quick = (0..SITES.len()).map(|s| (s, None)).collect();
+        let mut thorough = vec![];
+        for (s, site) in SITES.iter().enumerate() {
+            for rot in 0..site.values.len() {
+                for scheme in 0..3u8 {
+                    thorough.push((s, Some((rot, scheme))));
+                }
+            }
+        }
+        [quick, thorough]
+    });
+    &units[full as usize]
+}
+
+fn typed_n(full: bool) -> usize {
+    typed_units(full).len() * TYPED_BASE
+}
+
+/// a fixed bijective scramble of the case index (splitmix64 finaliser): decorrelates the cycling
+/// dimensions from the enumerated ones
+fn scramble(i: usize) -> u64 {
+    let mut z = (i as u64).wrapping_add(0x9E37_79B9_7F4A_7C15);
+    z = (z ^ (z >> 30)).wrapping_mul(0xBF58_476D_1CE4_E5B9);
+    z = (z ^ (z >> 27)).wrapping_mul(0x94D0_49BB_1331_11EB);
+    z ^ (z >> 31)
+}
+
+fn typed_case(i: usize, full: bool) -> TCase {
+    let (caller, leaf, nest, unit) = (i % 4, (i / 4) % 5, (i / 20) % NESTINGS, i / TYPED_BASE);
+    let (site, fixed) = typed_units(full)[unit];
+    let fwd = nesting(nest);
+    let depth = fwd.len();
+    let h = scramble(i);
+    let bits = |shift: u32, n: u64| ((h >> shift) % n) as usize;
+    let (rot, scheme) = fixed.unwrap_or((bits(0, SITES[site].values.len() as u64), bits(8, 3) as u8));
+    let strand = Strand { site, rot, leaf: leaf as u8, fwd, caller: caller as u8, scheme };
+    // one case in four has inverted invocations on the way
+    let invs = if bits(12, 4) == 3 { bits(16, 16) as u8 } else { 0 };
+    typed_build(&[strand], depth, bits(24, 16) as u8, invs, bits(32, 3) as u8, bits(40, 4) as u8)
+}
+
+fn typed_mixed() -> impl Strategy<Value = TCase> {
+    let strand = (any::<u16>(), 0usize..7, 0u8..5, prop::collection::vec(0u8..5, 3), 0u8..4, 0u8..3);
+    (prop::collection::vec(strand, 1..=3), 0usize..=3, 0u8..16, prop_oneof![3 => Just(0u8), 1 => 0u8..16], 0u8..3, 0u8..4).prop_map(|(raw, depth, shape, invs, ctx, twin)| {
+        let strands: Vec<Strand> = raw
+            .into_iter()
+            .map(|(site, rot, leaf, fwd, caller, scheme)| {
+                let site = pick(site, SITES.len());
+                Strand { site, rot: rot % SITES[site].values.len(), leaf, fwd: fwd[..depth].to_vec(), caller, scheme }
+            })
+            .collect();
+        typed_build(&strands, depth, shape, invs, ctx, twin)
+    })
+}
+
+fn check_typed(t: &TCase, rec: &mut Rec) -> CaseResult {
+    let outcome = match t.case.ctx {
+        0 => judge::<Minimal>(&t.case, rec),
+        1 => judge::<Plain>(&t.case, rec),
+        _ => judge::<GridCtx>(&t.case, rec),
+    }?;
+    for l in &t.labels {
+        if l.starts_with("typed:") && l.contains(":leaf=") || l.starts_with("site:") {
+            rec.class(&format!("{l}:{outcome}"));
+        } else if outcome == "both-ok" || !l.starts_with("value:") {
+            rec.count(l, 1);
+        }
+    }
+    // non-trivial here: the invocation and its literal both instantiate, behave alike, and an
+    // operator key of a typed parameter got its value through a binding form
+    if outcome == "both-ok" && t.bound {
+        rec.nontrivial(&(lib_text(&t.case.lib), steps_text(&t.case.top)));
+    }
+    Ok(())
+}
+
 fn main() {
     let mut run = Run::init("C04");
     selftest();
@@ -2477,8 +2942,10 @@ fn main() {
     run.assume("an unresolvable `$n` is required to be an error only when an operator actually looks the key up; unresolvable values that are ignored, or that meet a default form, are generated but not judged (excluded_unspecified)");
     run.assume("equivalence is asserted only while the nesting level stays <= 50 (half the recursion breaker); deeper chains: Ok or Err, no panic, no abort, no hang");
     run.assume("sections other than 'histories' compare two instantiations made on the same (reused) worker thread, so state the library keeps per thread affects both sides alike there; dependence on earlier instantiations is examined by 'histories', where every history and every reference runs on a freshly spawned thread");
-    run.assume("stack operators are not used in macro bodies or invocations (C03, C12); `inv=true` spelling is not generated; the directional modifiers omit_fwd / omit_inv (and their sugar `<` / `>`) are used in sections 'one-way-bodies' and 'one-way-steps' only, and only on steps of a pipeline (a body or invocation text of >= 2 steps): there they are a property of the step relative to the direction its pipeline is run in (Rumination 000/009), so a body run backwards by an inverted invocation omits in the literal's forward direction what it omits in its own inverse direction; a directional modifier on a definition that is a lone operator is not judged (excluded_unspecified); that a flat pipeline honours omit_fwd / omit_inv is taken from the library (C03)");
+    run.assume("stack steps appear in sections 'typed-bindings' / 'typed-mixed' only, as balanced programs inside one macro body and never under an inverted invocation (a stack step has no inverse of its own: what it does is decided by the pipeline it is a step of, C03 / C12; such cases are excluded_unspecified); `inv=true` spelling is not generated; the directional modifiers omit_fwd / omit_inv (and their sugar `<` / `>`) are used in sections 'one-way-bodies' and 'one-way-steps' only, and only on steps of a pipeline (a body or invocation text of >= 2 steps): there they are a property of the step relative to the direction its pipeline is run in (Rumination 000/009), so a body run backwards by an inverted invocation omits in the literal's forward direction what it omits in its own inverse direction; a directional modifier on a definition that is a lone operator is not judged (excluded_unspecified); that a flat pipeline honours omit_fwd / omit_inv is taken from the library (C03)");
     run.assume("parameter names are case-sensitive strings of letters (ASCII or not), digits and '_' in any order, other than the keys the library reserves (_name, inv, omit_fwd, omit_inv) and names ending in a subscript digit (documented sugar for _<digit>)");
+
+    run.assume("a value or default is any text the binding syntax can express (established on the unchanged library, which takes all such text literally): no '=', no white space except after a comma, not empty, not starting with '$' or '(', no parenthesis inside the default of $n(...), no ')' at the end of the default of (...); everything else - commas, colons, '@', '$' and parentheses elsewhere - is part of the value; the other cases are generated but not judged (excluded_unspecified). molodensky is not used (it asks which keys were given on the step itself, which the literal of the reference expander changes by spelling out caller arguments)");
 
     run.enumerate(
         "binding-forms",
@@ -2540,6 +3007,24 @@ fn main() {
         check,
     );
 
+    let full = run.is_thorough();
+    run.enumerate(
+        "typed-bindings",
+        "exhaustive: every parameter TYPE the operators declare x every binding form: 30 operator parameters (Series: helmert translation / rotation / velocity / angular_velocity, axisswap order, stack push / pop / roll / unroll / flip inside balanced stack programs; Texts: gridshift and deformation grids with @optional and @null entries and grid names containing ( ) $ : served by the user context; Text: ellps as a name and as a,rf on cart / tmerc / utm / deformation, helmert convention, adapt from / to, unitconvert units; Natural: utm zone; Real in sexagesimal / hemisphere notation: tmerc lat_0 / lon_0, merc lat_ts, helmert x, gridshift padding; Flag: utm south, helmert exact, deformation raw), each with a pool of 4..10 legal values (lists with and without a space after the comma, elements in D:M:S) and a few illegal ones, x binding of the operator key {absent, literal, $n, $n(d), (d)} x nesting depth 0..3 with EVERY combination of forms {none, literal, $n, $n(d), (d)} on the invocation arguments on the way down (156) x outermost argument {none, literal, (d), $n(d)}; which value of the pool is the literal / the default at each level / the caller's value rotates, as do the naming scheme (operator key at every level, ascending, descending names), single-operator / pipeline bodies, invocation alone or in a pipeline, inverted levels (one case in four), the inverted twin and the context; in quick by a fixed scramble of the case index; thorough: x every rotation of the value pool x the 3 naming schemes; oracle: the literal expansion of the reference expander (same Ok / Err, values bit for bit, both directions); non-trivial = both instantiate and the operator key got its value through a binding form",
+        typed_n(full),
+        move |i| typed_case(i, full),
+        check_typed,
+    );
+
+    let n = run.scale(12_000, 240_000);
+    run.section(
+        "typed-mixed",
+        "random: 1..3 typed parameters of 'typed-bindings' (any sites, also the same one twice) travelling together down one chain of depth 0..3: all their arguments on the same invocations (sorted into one map by the library), their operator steps (and stack programs) in one innermost pipeline body where each sees the others' caller arguments; forms, value rotation and naming scheme independent per parameter; 25% with inverted levels; shapes, twin and context random",
+        n,
+        typed_mixed,
+        check_typed,
+    );
+
     let n = run.scale(12_000, 240_000);
     run.section(
         "inv-position",
@@ -2588,5 +3073,5 @@ fn main() {
         check_graph,
     );
 
-    run.finish("macro libraries (generated and enumerated) instantiated through Minimal, Plain and a user context, compared with the macro-free literal produced by a reference expander (bit-identical behaviour in both directions, same success/failure; parameter names spanning the lexical order around the keys the library reserves; one-way steps in bodies run forwards and backwards by 0..3 inverted invocations), plus cyclic / deep / broken resource graphs under a panic guard, a 16 MB stack and a 30 s watchdog");
+    run.finish("macro libraries (generated and enumerated) instantiated through Minimal, Plain and a user context, compared with the macro-free literal produced by a reference expander (bit-identical behaviour in both directions, same success/failure; parameter names spanning the lexical order around the keys the library reserves; one-way steps in bodies run forwards and backwards by 0..3 inverted invocations; every binding form crossed with every parameter type - series, lists of texts, texts containing commas, naturals, sexagesimal reals, flags - as literal, default and caller's value through 0..3 nesting levels), plus cyclic / deep / broken resource graphs under a panic guard, a 16 MB stack and a 30 s watchdog");
 }
